@@ -397,6 +397,14 @@ class ScenarioGenerator:
                     u.PRIVESC_ACCESS: u.ROOT_ACCESS
                 }
                 privescs_added += 1
+            elif all([
+                    (f"pe_{p}" if os is None else f"pe_{p}_{os}") in privescs
+                    for p in self.processes
+            ]):
+                # every process already has a privesc for this OS, so no
+                # choice of process can fill this slot: choose another OS
+                # (this OS is still covered by the privescs already added)
+                os_choices[privescs_added] = np.random.choice(possible_os)
         self.privescs = privescs
 
     def _get_action_probs(self, num_actions, action_probs):
